@@ -246,9 +246,11 @@ MC = {
              ("MaxCap = 6  InitCap = 0  Sizes = {1,2}  Aligns = {1,2}  GrowStep = 1  GrowAmounts = {}  Tokens = {7}", 0, 1)],
         walks=300, steps=60, sample=1500),
     "thorough": dict(
-        impl=[("MaxCap = 8  InitCap = 4  Sizes = {1,2,3}  Aligns = {1,2,4}  GrowStep = 0  GrowAmounts = {2}  Tokens = {7}", "gs0"),
+        # (measured with 4 workers on a loaded machine: gs1 9 min / 0.94 M states, gs3 10 min / 1.02 M states; MaxCap = 8 with
+        #  alignments up to 8 did not finish in 40 min - the refinement property is checked on the whole behaviour graph)
+        impl=[("MaxCap = 7  InitCap = 4  Sizes = {1,2,3}  Aligns = {1,2,4}  GrowStep = 0  GrowAmounts = {2}  Tokens = {7}", "gs0"),
               ("MaxCap = 7  InitCap = 0  Sizes = {1,2,3}  Aligns = {1,2,4}  GrowStep = 1  GrowAmounts = {}  Tokens = {7}", "gs1"),
-              ("MaxCap = 8  InitCap = 2  Sizes = {1,2,3}  Aligns = {1,2,4,8}  GrowStep = 3  GrowAmounts = {1}  Tokens = {7}", "gs3")],
+              ("MaxCap = 7  InitCap = 2  Sizes = {1,2,3}  Aligns = {1,2,4}  GrowStep = 3  GrowAmounts = {1}  Tokens = {7}", "gs3")],
         contract="MaxCap = 10  InitCap = 4  Sizes = {1,2,3}  Aligns = {1,2,4}  GrowAmounts = {1,2}  Tokens = {7}",
         gen=[("MaxCap = 8  InitCap = 4  Sizes = {1,2,3}  Aligns = {1,2,4}  GrowStep = 0  GrowAmounts = {2}  Tokens = {7}", 4, 0),
              ("MaxCap = 8  InitCap = 0  Sizes = {1,2,3}  Aligns = {1,2,4}  GrowStep = 1  GrowAmounts = {}  Tokens = {7}", 0, 1),
@@ -333,7 +335,7 @@ def model_check(run, tier):
         mod, tag, cfg = job
         wd = C.scratch("mc")
         open(os.path.join(wd, tag + ".cfg"), "w").write(cfg)
-        res = C.run_tlc(mod, tag + ".cfg", workdir=wd, workers=max(2, C.NCPU // len(jobs)), timeout=3000)
+        res = C.run_tlc(mod, tag + ".cfg", workdir=wd, workers=max(2, C.NCPU // len(jobs)), timeout=6000)
         import shutil
         shutil.rmtree(wd, ignore_errors=True)
         return tag, res
